@@ -8,5 +8,6 @@ CONSTANTS
   Emit = TRUE
   Bug = "none"
 INVARIANT MImpliesP
+INVARIANT MLoImpliesP
 INVARIANT EmitCases
 CHECK_DEADLOCK FALSE
